@@ -80,7 +80,7 @@ Definition run (s : sx) : sx :=
       let fp := mkPfParams s0 nb ms (xOptZ (p 2%nat)) in
       let ns := pf_rnotes fp (xZ (r 0%nat)) (xZ (r 1%nat)) (xZ (r 2%nat)) (xB (r 3%nat)) es in
       let q := rseq resol ts ns [] (max_end 0 ns) in
-      out ((0 <=? s0) && canonical_perf nb ms es) q
+      out ((0 <=? s0) && canonical_perf_w nb ms es) q
           (oOk (L (map (fun e => L [I (fst e); I (snd e)]) (pf_from_quantized fp ns))))
   | 7 => (* note performance: (bins max_shift max_duration (instr)?) (i pr drum) *)
       let es := map (fun e => (xZ (xnth 0 e), xZ (xnth 1 e), xZ (xnth 2 e), xZ (xnth 3 e))) (xL (a 1%nat)) in
